@@ -103,6 +103,22 @@ class Engine:
     def sample_view(self, plan):
         return trim(plan)
 
+    def variant(self, ex, name):
+        """Executor of another build variant of /repo (same harness, other build-time knobs):
+        'small' = 256-byte memory pages, 1 KiB symbol pools, 4 KiB macro pools (hook H1)."""
+        if name in (None, "san"):
+            return ex
+        if not hasattr(self, "_variants"):
+            self._variants = {}
+        if name not in self._variants:
+            self._variants[name] = Executor(name)
+        return self._variants[name]
+
+    def close(self):
+        for e in getattr(self, "_variants", {}).values():
+            e.close()
+        self._variants = {}
+
 
 def trim(obj, limit=300):
     if isinstance(obj, dict):
@@ -174,6 +190,7 @@ def worker_main(engine_cls, tier, seed, counter, deadline, max_runs, out_q, wid,
                 last = time.time()
         agg["restarts"] = ex.restarts
         ex.close()
+        eng.close()
         out_q.put(agg)
     except Exception:
         a = new_agg()
@@ -268,6 +285,7 @@ def run_plan_fresh(engine_cls, tier, seed, plan):
         res = eng.run(ex, plan)
     finally:
         ex.close()
+        eng.close()
     return res
 
 
@@ -303,6 +321,7 @@ def gate_and_minimise(engine_cls, tier, seed, key, plan, log):
             if tries >= max_tries or time.time() - t0 > 90:
                 break
     ex.close()
+    eng.close()
     r3 = run_plan_fresh(engine_cls, tier, seed, plan)
     if key not in [k for k, _ in r3.violations]:
         log("gate: minimised plan lost key %s" % key)
@@ -334,6 +353,8 @@ def main(engine_cls):
     prop = engine_cls.prop
     t_start = time.time()
     build_s = build()
+    for v in getattr(engine_cls, "variants", ()):
+        build_s += build(v)
 
     def log(msg):
         print("[%s] %s" % (prop, msg), flush=True)
